@@ -137,6 +137,17 @@ theorem atomStep_sem (cx : Ctx) (a : Atom) (st : St) (hv : Valid cx st) (ha : a.
     | some v =>
       obtain ⟨cp, n⟩ := v
       by_cases hc : (decide (lo ≤ cp) && decide (cp ≤ hi)) = found <;> simp [hc]
+  | repOne lo hi c =>
+    simp only [atomStep, atomSem, windowBytes, St.avail]
+    by_cases h1 : (List.take (hi + 1) (List.take (st.endp - st.cur.pos) (List.drop st.cur.pos cx.inp.toList))).length < lo
+    · simp only [h1, if_true]
+      simp
+    · by_cases h2 : lo ≤ ((List.take (hi + 1) (List.take (st.endp - st.cur.pos) (List.drop st.cur.pos cx.inp.toList))).takeWhile (· == c)).length ∧
+          ((List.take (hi + 1) (List.take (st.endp - st.cur.pos) (List.drop st.cur.pos cx.inp.toList))).takeWhile (· == c)).length ≤ hi
+      · simp only [h1, h2, if_false, and_self, if_true]
+        simp
+      · simp only [h1, h2, if_false]
+        simp
   | maxDigits mx =>
     have hfun : isDigitB = (fun c => 48 ≤ c && c ≤ 57) := rfl
     simp only [atomStep, atomSem, windowBytes, St.avail, digitsValue, hfun]
